@@ -469,6 +469,10 @@ func (s *Sim) serve(w http.ResponseWriter, r *http.Request) {
 	if f, ok := s.FaultAt[idx]; ok && code == 0 {
 		fmt.Sscanf(f[0], "%d", &code)
 		reason = f[1]
+		// a read cannot be answered Conflict / AlreadyExists / Invalid by an API server: inject a server error instead
+		if verb == "get" && (reason == "Conflict" || reason == "AlreadyExists" || reason == "Invalid") {
+			code, reason = 500, "InternalError"
+		}
 		e.Injected = true
 	}
 	// fault injection
